@@ -9,17 +9,24 @@ Import ListNotations.
 Open Scope Z_scope.
 
 (* ---------- 8.5: the double nearest to N / D  (N > 0, D > 0), as bits ---------- *)
-Definition round_pos (N D : Z) : Z :=
-  let l := Z.log2 N - Z.log2 D in
-  let quot ex := if 0 <=? ex then fast_div N (D * p2 ex) else fast_div (N * p2 (- ex)) D in
-  let ex0 := if p2 52 <=? quot (l - 52) then l - 52 else l - 53 in
-  let ex := Z.max ex0 (-1074) in
-  let num := if 0 <=? ex then N else N * p2 (- ex) in
-  let den := if 0 <=? ex then D * p2 ex else D in
+(* N / D / 2^ex as fraction num / den of integers *)
+Definition scaled_num (N ex : Z) : Z := if 0 <=? ex then N else N * p2 (- ex).
+Definition scaled_den (D ex : Z) : Z := if 0 <=? ex then D * p2 ex else D.
+(* the integer nearest to N / D / 2^ex, ties to even *)
+Definition round_at (N D ex : Z) : Z :=
+  let num := scaled_num N ex in
+  let den := scaled_den D ex in
   let '(mq, mqd) := fast_divmul num den in
   let r := num - mqd in
-  let up := (den <? 2 * r) || ((2 * r =? den) && Z.odd mq) in
-  let m1 := if up then mq + 1 else mq in
+  if (den <? 2 * r) || ((2 * r =? den) && Z.odd mq) then mq + 1 else mq.
+
+Definition round_pos (N D : Z) : Z :=
+  let l := Z.log2 N - Z.log2 D in
+  let quot ex := fast_div (scaled_num N ex) (scaled_den D ex) in
+  (* the exponent that puts the significand in [2^52, 2^53), not below the subnormal exponent *)
+  let ex0 := if p2 52 <=? quot (l - 52) then l - 52 else l - 53 in
+  let ex := Z.max ex0 (-1074) in
+  let m1 := round_at N D ex in
   let '(m2, e2) := if m1 =? p2 53 then (p2 52, ex + 1) else (m1, ex) in
   if 971 <? e2 then pinf_bits
   else if m2 <? p2 52 then m2 else (e2 + 1075) * p2 52 + (m2 - p2 52).
